@@ -72,6 +72,14 @@ def main():
             ctx.violation('property', '%s fails on the implementation: %s%r answered %s the first time and %s when asked again at the end of the '
                           'run: the result is not a function of the input' % (pid, req[0], tuple(req[1]), first[:300], got[:300]), [req[0], req[1]])
 
+    if not ctx.violations:
+        rep = ctx.other_environments()
+        if rep:
+            vname, req, first, got = rep
+            ctx.violation('property', '%s fails on the implementation: %s%r answers %s in this process and %s in a fresh interpreter under '
+                          '%s: the result depends on the environment' % (pid, req[0], tuple(req[1]), first[:300], got[:300], vname),
+                          [req[0], req[1], vname])
+
     n, err = ctx.model.coq_crosscheck(ctx.all_requests)
     ctx.notes.append('extraction cross-check: %d requests re-evaluated by vm_compute inside Coq' % n)
     if err:
